@@ -16,7 +16,7 @@ def run_focus(ctx, focus, emit_cfgs, reach=(), driver_env=None, rule="", extra_m
         nbeh = len(set(open(beh).read().splitlines()))
         total_beh += nbeh
         trace = os.path.join(ctx.scratch, "trace_%s.ndjson" % cfg.replace(".cfg", ""))
-        env = {"VERIF_IN": beh, "VERIF_TRACE": trace, "VERIF_STRIDE": sq if q else st, "VERIF_REPS": 2 if q else 4}
+        env = {"VERIF_IN": beh, "VERIF_TRACE": trace, "VERIF_STRIDE": sq if q else st, "VERIF_REPS": 2 if q else 4, "VERIF_SEQS": 60 if q else 1500}
         env.update(driver_env or {})
         rc, out = ctx.run_driver("TestVfProxy", env=env, timeout=3000, allow_fail=True)
         if rc != 0:
